@@ -325,6 +325,8 @@ def _run_chunk(chunk):
     import logging
     logging.disable(logging.CRITICAL)      # (the tracer reports contained failures - scripted here - through `logging`)
     _setup_modules()
+    import gc
+    gc.freeze()        # what exists now (the inherited scenario lists) is never garbage: later collections look at new objects only
     recs = [run_scenario(sc) for sc in chunk]
     return recs, (absmodel.TABLE.mro, absmodel.TABLE.bases, absmodel.TABLE.modqn)
 
